@@ -134,6 +134,21 @@ def _pipeline(spec, cfg, solve, out, stats):
     out["stage"] = "hydro"
     out["vJ"], out["vMin"] = hyd.vJ, hyd.vMin
     out["fastestDeflag"] = hyd.fastestDeflag()
+    # call-site monitor on the matching just below vJ (where fastestDeflag evaluates it): was
+    # it a converged exact matching or the template fallback / a non-converged solve?
+    try:
+        from wgverif.checks._hydro import HydroProbe
+        hp = HydroProbe.from_objects(th, hyd, cfg.get("hydro_rtol", 1e-6),
+                                     cfg.get("hydro_atol", 1e-10))
+        tops = []
+        for dv in (1e-3, 4e-3, 1.2e-2):
+            mm = hp.matching(float(hyd.vJ - dv))
+            tops.append({"dv": dv, "branch": mm["branch"],
+                         "n_hybr_failed": int(mm.get("n_hybr_failed") or 0),
+                         "Tm_over_TMaxL": (mm["Tm"] / out["ranges"]["L"][1]) if "Tm" in mm else None})
+        out["top_matchings"] = tops
+    except Exception as exc:
+        out["top_matchings"] = [{"error": repr(exc)[:100]}]
     out["stage"] = "lte"
     out["vLTE"] = float(m.wallSpeedLTE())
     # margins (P_margin): the whole window inside the tabulated ranges with room to spare
